@@ -1,5 +1,5 @@
 """which contract modules exist, and per property: claimed level, assumptions, bounded stand-ins"""
-MODULES = ['contracts.c19_boxes', 'contracts.c01_membership', 'contracts.c04_bbox', 'contracts.c15_motions', 'contracts.c02_masks']
+MODULES = ['contracts.c19_boxes', 'contracts.c01_membership', 'contracts.c04_bbox', 'contracts.c15_motions', 'contracts.c02_masks', 'contracts.c17_validation']
 
 A_PY = 'A-PY: CPython semantics of the modelled subset (ints exact, dict/list/str methods, left-to-right evaluation)'
 A_REAL = 'A-REAL: floats are treated as real numbers (no rounding, no overflow)'
@@ -31,4 +31,8 @@ PROPERTIES = {
                 assumptions=[A_PY, A_REAL, A_TRIG, A_NUMPY, A_UNITS,
                              'polygon membership under rotation and polygon mask values under translation depend on the crossing-number kernel itself and are not proved (vertex positions, box translation and mask shape are)',
                              'regular polygons and compounds: rotate is covered through their components']),
+    'C17': dict(level='proof', trusted=[A_PY, A_REAL, A_NUMPY, A_UNITS, 'astropy SkyCoord/Quantity type predicates (isscalar, ndim, unit.physical_type) as modelled in externals/'],
+                assumptions=[A_PY, A_REAL, A_NUMPY, A_UNITS,
+                             'the catalogue of candidate values is a finite set of kinds; numeric kinds are symbolic (all reals / ints), the rest concrete representatives',
+                             'interleavings of assignments: each assignment is verified from an arbitrary well-formed state, so sequences follow by induction']),
 }
